@@ -69,6 +69,11 @@ func c12GenCNF(r *Rng) (*cnf.CNF, error) {
 }
 
 func c12GenHierarchical(r *Rng) (*hierarchical.HierarchicalConjunctiveThreshold, error) {
+	return c12GenHierarchicalOpt(r, false)
+}
+
+// with allowEmpty some levels (never the first) have no parties: the public constructor admits them
+func c12GenHierarchicalOpt(r *Rng, allowEmpty bool) (*hierarchical.HierarchicalConjunctiveThreshold, error) {
 	for {
 		nl := 2 + r.IntN(2)
 		id := sharing.ID(1)
@@ -76,12 +81,15 @@ func c12GenHierarchical(r *Rng) (*hierarchical.HierarchicalConjunctiveThreshold,
 		cum := 0
 		for i := range levels {
 			cnt := 1 + r.IntN(3)
+			if allowEmpty && i > 0 && r.IntN(8) == 0 {
+				cnt = 0 // a level without parties: the constructor admits it
+			}
 			ids := make([]sharing.ID, cnt)
 			for j := range ids {
 				ids[j] = id
 				id++
 			}
-			cum += 1 + r.IntN(cnt)
+			cum += 1 + r.IntN(max(cnt, 1))
 			levels[i] = hierarchical.WithLevel(cum, ids...)
 		}
 		h, err := hierarchical.NewHierarchicalConjunctiveThresholdAccessStructure(levels...)
@@ -227,6 +235,17 @@ func c12ValidMSP[S algebra.PrimeFieldElement[S]](v *msp.MSP[S]) error {
 	for k, id := range v.RowsToHolders().Iter() {
 		lab[k] = id
 	}
+	// the rules themselves, independently of the constructor: a non-zero label for exactly the
+	// rows 0 .. rows-1
+	rows, cols := v.Matrix().Dimensions()
+	if rows < 1 || cols < 1 || len(lab) != rows {
+		return fmt.Errorf("%d labels for a %dx%d matrix", len(lab), rows, cols)
+	}
+	for i := 0; i < rows; i++ {
+		if id, ok := lab[i]; !ok || id == 0 {
+			return fmt.Errorf("row %d has no label or the label 0", i)
+		}
+	}
 	w, err := msp.NewMSP(v.Matrix(), lab)
 	if err != nil {
 		return err
@@ -237,7 +256,48 @@ func c12ValidMSP[S algebra.PrimeFieldElement[S]](v *msp.MSP[S]) error {
 	return nil
 }
 
-func c12ValidBasePM[E algebra.PrimeGroupElement[E, S], S algebra.PrimeFieldElement[S]](v *mpc.BasePublicMaterial[E, S]) error {
+// c12ExpectedLifted computes, from public getters and plain group operations only (no library
+// share / matrix / Equal helper), the public share of holder id: the rows of M labelled id, in
+// ascending row order, applied to the verification vector: (M_i · V) = Σ_j M_ij · V_j.
+func c12ExpectedLifted[E algebra.PrimeGroupElement[E, S], S algebra.PrimeFieldElement[S]](g algebra.PrimeGroup[E, S], m *msp.MSP[S], vv *feldman.VerificationVector[E, S], id sharing.ID) ([]E, error) {
+	if m == nil || vv == nil || m.Matrix() == nil || vv.Value() == nil {
+		return nil, errC12("nil MSP / verification vector")
+	}
+	_, cols := m.Matrix().Dimensions()
+	vr, vc := vv.Value().Dimensions()
+	if vc != 1 || vr != cols {
+		return nil, fmt.Errorf("verification vector of shape %dx%d against an MSP with %d columns", vr, vc, cols)
+	}
+	var rows []int
+	for k, h := range m.RowsToHolders().Iter() {
+		if h == id {
+			rows = append(rows, k)
+		}
+	}
+	slices.Sort(rows)
+	if len(rows) == 0 {
+		return nil, fmt.Errorf("holder %d labels no MSP row", id)
+	}
+	out := make([]E, len(rows))
+	for k, i := range rows {
+		acc := g.OpIdentity()
+		for j := 0; j < cols; j++ {
+			mij, err := m.Matrix().Get(i, j)
+			if err != nil {
+				return nil, err
+			}
+			vj, err := vv.Value().Get(j, 0)
+			if err != nil {
+				return nil, err
+			}
+			acc = acc.Op(vj.ScalarOp(mij))
+		}
+		out[k] = acc
+	}
+	return out, nil
+}
+
+func c12ValidBasePM[E algebra.PrimeGroupElement[E, S], S algebra.PrimeFieldElement[S]](g algebra.PrimeGroup[E, S], v *mpc.BasePublicMaterial[E, S]) error {
 	if err := c12ValidMSP(v.MSP()); err != nil {
 		return err
 	}
@@ -248,18 +308,46 @@ func c12ValidBasePM[E algebra.PrimeGroupElement[E, S], S algebra.PrimeFieldEleme
 	if !w.Equal(v) || !w.PublicKeyValue().Equal(v.PublicKeyValue()) {
 		return errC12("re-constructed public material differs")
 	}
-	for id, s := range w.PublicKeyShares().Iter() {
-		t, ok := v.PublicKeyShares().Get(id)
-		if !ok || !t.Equal(s) {
-			return errC12("public key shares differ from those derived from the verification vector")
+	// independent of the constructor: every derived public key share is M_rows · V, component by
+	// component, and the public key is V_0 (target e_0)
+	holders := map[sharing.ID]bool{}
+	for _, h := range v.MSP().RowsToHolders().Iter() {
+		holders[h] = true
+	}
+	if v.PublicKeyShares() == nil || v.PublicKeyShares().Size() != len(holders) {
+		return errC12("public key shares are not indexed by exactly the MSP's holders")
+	}
+	for id := range holders {
+		exp, err := c12ExpectedLifted(g, v.MSP(), v.VerificationVector(), id)
+		if err != nil {
+			return err
 		}
+		t, ok := v.PublicKeyShares().Get(id)
+		if !ok || t == nil || t.ID() != id || len(t.Value()) != len(exp) {
+			return fmt.Errorf("public key share of holder %d missing or of the wrong length", id)
+		}
+		for k := range exp {
+			if !t.Value()[k].Equal(exp[k]) {
+				return fmt.Errorf("public key share of holder %d differs from M_row*V in component %d", id, k)
+			}
+		}
+	}
+	v0, err := v.VerificationVector().Value().Get(0, 0)
+	if err != nil {
+		return err
+	}
+	if !v.PublicKeyValue().Equal(v0) {
+		return errC12("public key differs from the first entry of the verification vector")
 	}
 	return nil
 }
 
-func c12ValidShard[E algebra.PrimeGroupElement[E, S], S algebra.PrimeFieldElement[S]](v *mpc.BaseShard[E, S]) error {
-	if err := c12ValidBasePM(&v.BasePublicMaterial); err != nil {
+func c12ValidShard[E algebra.PrimeGroupElement[E, S], S algebra.PrimeFieldElement[S]](g algebra.PrimeGroup[E, S], v *mpc.BaseShard[E, S]) error {
+	if err := c12ValidBasePM(g, &v.BasePublicMaterial); err != nil {
 		return err
+	}
+	if v.Share() == nil {
+		return errC12("nil share")
 	}
 	w, err := mpc.NewBaseShard(v.Share(), v.VerificationVector(), v.MSP())
 	if err != nil {
@@ -268,35 +356,142 @@ func c12ValidShard[E algebra.PrimeGroupElement[E, S], S algebra.PrimeFieldElemen
 	if !w.Equal(v) {
 		return errC12("re-constructed shard differs")
 	}
-	// independent of the constructor: the private share lifted to the group equals the public
-	// key share derived from the verification vector
-	group := algebra.StructureMustBeAs[algebra.PrimeGroup[E, S]](v.VerificationVector().Value().Module().BaseModule())
-	lifted, err := feldman.LiftShare(v.Share(), group.Generator())
+	// independent of the constructor and of every library comparison helper: each component of the
+	// private share lifted to the group equals the corresponding row of M applied to V
+	exp, err := c12ExpectedLifted(g, v.MSP(), v.VerificationVector(), v.Share().ID())
 	if err != nil {
 		return err
 	}
-	pks, ok := v.PublicKeyShares().Get(v.Share().ID())
-	if !ok || !lifted.Equal(pks) {
-		return errC12("private share does not match the public data")
+	if len(v.Share().Value()) != len(exp) {
+		return fmt.Errorf("private share has %d components, the holder owns %d MSP rows", len(v.Share().Value()), len(exp))
+	}
+	for k, s := range v.Share().Value() {
+		if !g.Generator().ScalarOp(s).Equal(exp[k]) {
+			return fmt.Errorf("private share component %d does not match the public data", k)
+		}
 	}
 	return nil
 }
 
-func c12Deal[E algebra.PrimeGroupElement[E, S], S algebra.PrimeFieldElement[S]](r *Rng, g algebra.PrimeGroup[E, S]) ([]*mpc.BaseShard[E, S], error) {
+// c12GenNonIdealCNF: a CNF structure in which some holder is missing from at least two maximal
+// unqualified sets, i.e. owns at least two MSP rows (a multi-component share).
+func c12GenNonIdealCNF(r *Rng) (*cnf.CNF, error) {
+	for {
+		n := 3 + r.IntN(4) // holders 1..n (small ids: the induced MSP uses a 64-bit set)
+		k := 2 + r.IntN(3)
+		sets := make([]ds.Set[sharing.ID], k)
+		for i := range sets {
+			s := hashset.NewComparable[sharing.ID]()
+			sz := 1 + r.IntN(n-1)
+			for s.Size() < sz {
+				s.Add(sharing.ID(1 + r.IntN(n)))
+			}
+			sets[i] = s.Freeze()
+		}
+		c, err := cnf.NewCNFAccessStructure(sets...)
+		if err != nil {
+			continue
+		}
+		multi := false
+		for id := range c.Shareholders().Iter() {
+			absent := 0
+			for u := range c.MaximalUnqualifiedSetsIter() {
+				if !u.Contains(id) {
+					absent++
+				}
+			}
+			if absent >= 2 {
+				multi = true
+			}
+		}
+		if multi {
+			return c, nil
+		}
+	}
+}
+
+// c12GenBoolRepeated: a threshold-gate tree whose leaves are drawn from a small pool, so that the
+// same shareholder occurs under several gates (siblings stay distinct, as checkTree demands).
+func c12GenBoolRepeated(r *Rng) (*boolexpr.ThresholdGateAccessStructure, error) {
+	pool := 3 + r.IntN(3)
+	var gen func(depth int) *boolexpr.Node
+	gen = func(depth int) *boolexpr.Node {
+		k := 2 + r.IntN(2)
+		if k > pool {
+			k = pool
+		}
+		kids := make([]*boolexpr.Node, 0, k)
+		used := map[int]bool{}
+		for len(kids) < k {
+			if depth > 0 && r.IntN(3) == 0 {
+				kids = append(kids, gen(depth-1))
+				continue
+			}
+			id := 1 + r.IntN(pool)
+			if used[id] {
+				continue
+			}
+			used[id] = true
+			kids = append(kids, boolexpr.ID(sharing.ID(id)))
+		}
+		return boolexpr.Threshold(1+r.IntN(k), kids...)
+	}
+	for {
+		k := 2 + r.IntN(2)
+		kids := make([]*boolexpr.Node, k)
+		for i := range kids {
+			kids[i] = gen(1)
+		}
+		a, err := boolexpr.NewThresholdGateAccessStructure(boolexpr.Threshold(1+r.IntN(k), kids...))
+		if err == nil && a.CountLeaves() > a.Shareholders().Size() {
+			return a, nil
+		}
+	}
+}
+
+// c12GenNonIdealAS: an access structure whose induced MSP gives some holder several rows.
+func c12GenNonIdealAS(r *Rng) (accessstructures.Monotone, error) {
+	if r.IntN(2) == 0 {
+		return c12GenNonIdealCNF(r)
+	}
+	return c12GenBoolRepeated(r)
+}
+
+// c12Deal deals a fresh key over a generated access structure; with nonIdeal the structure is a CNF
+// / boolean-formula structure in which some holder owns several MSP rows.  The shards are returned
+// sorted by holder, those with the most share components first when nonIdeal.
+func c12Deal[E algebra.PrimeGroupElement[E, S], S algebra.PrimeFieldElement[S]](r *Rng, g algebra.PrimeGroup[E, S], nonIdeal bool) ([]*mpc.BaseShard[E, S], error) {
 	// some generated structures are refused by the Feldman scheme (e.g. hierarchical constraints
 	// over the field): draw again
 	var shards ds.Map[sharing.ID, *mpc.BaseShard[E, S]]
 	var err error
-	for try := 0; try < 20; try++ {
+	for try := 0; try < 40; try++ {
 		var ac accessstructures.Monotone
-		ac, err = c12GenAnyAS(r)
+		if nonIdeal {
+			ac, err = c12GenNonIdealAS(r)
+		} else {
+			ac, err = c12GenAnyAS(r)
+		}
 		if err != nil {
 			continue
 		}
 		shards, err = trusteddealer.Deal(g, ac, r)
-		if err == nil {
-			break
+		if err != nil {
+			continue
 		}
+		if nonIdeal {
+			multi := false
+			for _, sh := range shards.Values() {
+				if len(sh.Share().Value()) >= 2 {
+					multi = true
+				}
+			}
+			if !multi {
+				err = errC12("no multi-row holder")
+				continue
+			}
+		}
+		break
 	}
 	if err != nil {
 		return nil, err
@@ -307,46 +502,80 @@ func c12Deal[E algebra.PrimeGroupElement[E, S], S algebra.PrimeFieldElement[S]](
 	for i, id := range ids {
 		out[i], _ = shards.Get(id)
 	}
+	if nonIdeal {
+		slices.SortStableFunc(out, func(a, b *mpc.BaseShard[E, S]) int {
+			return len(b.Share().Value()) - len(a.Share().Value())
+		})
+	}
 	return out, nil
 }
 
+// c12PickShard: every second value is the shard of a multi-row holder of a non-ideal structure.
+func c12PickShard[E algebra.PrimeGroupElement[E, S], S algebra.PrimeFieldElement[S]](c *c12Alt, r *Rng, g algebra.PrimeGroup[E, S]) (*mpc.BaseShard[E, S], error) {
+	nonIdeal := c.next()
+	sh, err := c12Deal(r, g, nonIdeal)
+	if err != nil {
+		return nil, err
+	}
+	if nonIdeal {
+		return sh[0], nil
+	}
+	return sh[r.IntN(len(sh))], nil
+}
+
+// c12Alt alternates between the two value sources of a case (first call: true).
+type c12Alt struct{ n int }
+
+func (a *c12Alt) next() bool { a.n++; return a.n%2 == 1 }
+
 func c12RegisterSharing[E algebra.PrimeGroupElement[E, S], S algebra.PrimeFieldElement[S]](cn string, g algebra.PrimeGroup[E, S], f algebra.PrimeField[S]) {
+	fam := c12NewFamily(cn, g, f)
+	heavy := 2
+	if cn != "k256" {
+		heavy = 5 // BLS12-381 arithmetic in pure Go is an order of magnitude slower
+	}
 	c12Register(c12Case[*mpc.BaseShard[E, S]]{
 		name:   "mpc.BaseShard/" + cn,
-		weight: 2,
-		gen: func(r *Rng) (*mpc.BaseShard[E, S], error) {
-			sh, err := c12Deal(r, g)
-			if err != nil {
-				return nil, err
-			}
-			return sh[r.IntN(len(sh))], nil
-		},
+		weight: heavy,
+		fam:    fam,
+		gen: func() func(r *Rng) (*mpc.BaseShard[E, S], error) {
+			alt := &c12Alt{}
+			return func(r *Rng) (*mpc.BaseShard[E, S], error) { return c12PickShard(alt, r, g) }
+		}(),
 		equal: func(a, b *mpc.BaseShard[E, S]) bool { return a.Equal(b) && a.Share().Equal(b.Share()) },
-		valid: c12ValidShard[E, S],
+		valid: func(v *mpc.BaseShard[E, S]) error { return c12ValidShard(g, v) },
 	})
 	c12Register(c12Case[*mpc.BasePublicMaterial[E, S]]{
 		name:   "mpc.BasePublicMaterial/" + cn,
-		weight: 2,
-		gen: func(r *Rng) (*mpc.BasePublicMaterial[E, S], error) {
-			sh, err := c12Deal(r, g)
-			if err != nil {
-				return nil, err
+		weight: heavy,
+		fam:    fam,
+		gen: func() func(r *Rng) (*mpc.BasePublicMaterial[E, S], error) {
+			alt := &c12Alt{}
+			return func(r *Rng) (*mpc.BasePublicMaterial[E, S], error) {
+				sh, err := c12Deal(r, g, alt.next())
+				if err != nil {
+					return nil, err
+				}
+				return &sh[0].BasePublicMaterial, nil
 			}
-			return &sh[0].BasePublicMaterial, nil
-		},
+		}(),
 		equal: func(a, b *mpc.BasePublicMaterial[E, S]) bool { return a.Equal(b) },
-		valid: c12ValidBasePM[E, S],
+		valid: func(v *mpc.BasePublicMaterial[E, S]) error { return c12ValidBasePM(g, v) },
 	})
 	c12Register(c12Case[*feldman.VerificationVector[E, S]]{
 		name:   "feldman.VerificationVector/" + cn,
 		weight: 2,
-		gen: func(r *Rng) (*feldman.VerificationVector[E, S], error) {
-			sh, err := c12Deal(r, g)
-			if err != nil {
-				return nil, err
+		fam:    fam,
+		gen: func() func(r *Rng) (*feldman.VerificationVector[E, S], error) {
+			alt := &c12Alt{}
+			return func(r *Rng) (*feldman.VerificationVector[E, S], error) {
+				sh, err := c12Deal(r, g, alt.next())
+				if err != nil {
+					return nil, err
+				}
+				return sh[0].VerificationVector(), nil
 			}
-			return sh[0].VerificationVector(), nil
-		},
+		}(),
 		equal: func(a, b *feldman.VerificationVector[E, S]) bool { return a.Equal(b) },
 		valid: func(v *feldman.VerificationVector[E, S]) error {
 			if v.Value() == nil {
@@ -356,23 +585,50 @@ func c12RegisterSharing[E algebra.PrimeGroupElement[E, S], S algebra.PrimeFieldE
 			if cols != 1 || rows < 1 {
 				return fmt.Errorf("verification vector of shape %dx%d", rows, cols)
 			}
+			for i := 0; i < rows; i++ {
+				p, err := v.Value().Get(i, 0)
+				if err != nil {
+					return err
+				}
+				if c12IsNil(any(p)) {
+					return fmt.Errorf("verification vector entry %d is nil", i)
+				}
+			}
+			w, err := feldman.NewVerificationVector(v.Value(), nil)
+			if err != nil {
+				return err
+			}
+			if !w.Equal(v) {
+				return errC12("re-constructed verification vector differs")
+			}
 			return nil
 		},
 	})
 	c12Register(c12Case[*msp.MSP[S]]{
 		name: "msp.MSP/" + cn,
-		gen: func(r *Rng) (*msp.MSP[S], error) {
-			ac, err := c12GenAnyAS(r)
-			if err != nil {
-				return nil, err
+		fam:  fam,
+		gen: func() func(r *Rng) (*msp.MSP[S], error) {
+			alt := &c12Alt{}
+			return func(r *Rng) (*msp.MSP[S], error) {
+				var ac accessstructures.Monotone
+				var err error
+				if alt.next() {
+					ac, err = c12GenNonIdealAS(r)
+				} else {
+					ac, err = c12GenAnyAS(r)
+				}
+				if err != nil {
+					return nil, err
+				}
+				return accessstructures.InducedMSP(f, ac)
 			}
-			return accessstructures.InducedMSP(f, ac)
-		},
+		}(),
 		equal: func(a, b *msp.MSP[S]) bool { return a.Equal(b) },
 		valid: c12ValidMSP[S],
 	})
 	c12Register(c12Case[*kw.Share[S]]{
 		name: "kw.Share/" + cn,
+		fam:  fam,
 		gen: func(r *Rng) (*kw.Share[S], error) {
 			vals := make([]S, 1+r.IntN(3))
 			for i := range vals {
@@ -382,6 +638,9 @@ func c12RegisterSharing[E algebra.PrimeGroupElement[E, S], S algebra.PrimeFieldE
 		},
 		equal: func(a, b *kw.Share[S]) bool { return a.Equal(b) },
 		valid: func(v *kw.Share[S]) error {
+			if v.ID() == 0 || len(v.Value()) == 0 {
+				return errC12("share with ID 0 or without components")
+			}
 			w, err := kw.NewShare(v.ID(), v.Value()...)
 			if err != nil {
 				return err
@@ -394,6 +653,7 @@ func c12RegisterSharing[E algebra.PrimeGroupElement[E, S], S algebra.PrimeFieldE
 	})
 	c12Register(c12Case[*feldman.LiftedShare[E, S]]{
 		name: "feldman.LiftedShare/" + cn,
+		fam:  fam,
 		gen: func(r *Rng) (*feldman.LiftedShare[E, S], error) {
 			vals := make([]E, 1+r.IntN(3))
 			for i := range vals {
@@ -401,20 +661,31 @@ func c12RegisterSharing[E algebra.PrimeGroupElement[E, S], S algebra.PrimeFieldE
 			}
 			return feldman.NewLiftedShare(sharing.ID(1+r.IntN(9)), vals...)
 		},
-		equal: func(a, b *feldman.LiftedShare[E, S]) bool { return a.Equal(b) },
-		valid: func(v *feldman.LiftedShare[E, S]) error {
-			w, err := feldman.NewLiftedShare(v.ID(), v.Value()...)
-			if err != nil {
-				return err
+		// component-wise, not through LiftedShare.Equal
+		equal: func(a, b *feldman.LiftedShare[E, S]) bool {
+			if a.ID() != b.ID() || len(a.Value()) != len(b.Value()) {
+				return false
 			}
-			if !w.Equal(v) {
-				return errC12("re-constructed lifted share differs")
+			for i := range a.Value() {
+				if !a.Value()[i].Equal(b.Value()[i]) {
+					return false
+				}
+			}
+			return true
+		},
+		valid: func(v *feldman.LiftedShare[E, S]) error {
+			if v.ID() == 0 || len(v.Value()) == 0 {
+				return errC12("lifted share with ID 0 or without components")
+			}
+			if _, err := feldman.NewLiftedShare(v.ID(), v.Value()...); err != nil {
+				return err
 			}
 			return nil
 		},
 	})
 	c12Register(c12Case[*shamir.Share[S]]{
 		name: "shamir.Share/" + cn,
+		fam:  fam,
 		gen: func(r *Rng) (*shamir.Share[S], error) {
 			ac, err := c12GenThreshold(r)
 			if err != nil {
@@ -440,6 +711,7 @@ func c12RegisterSharing[E algebra.PrimeGroupElement[E, S], S algebra.PrimeFieldE
 	})
 	c12Register(c12Case[*mat.Matrix[S]]{
 		name: "mat.Matrix/" + cn,
+		fam:  fam,
 		gen: func(r *Rng) (*mat.Matrix[S], error) {
 			m, n := 1+r.IntN(4), 1+r.IntN(4)
 			mod, err := mat.NewMatrixModule(uint(m), uint(n), f)
@@ -487,6 +759,10 @@ func init() {
 		gen:   c12GenThreshold,
 		equal: func(a, b *threshold.Threshold) bool { return a.Equal(b) },
 		valid: func(v *threshold.Threshold) error {
+			// the rules themselves, independently of the constructor
+			if v.Shareholders() == nil || v.Shareholders().Contains(0) || v.Threshold() < 2 || int(v.Threshold()) > v.Shareholders().Size() {
+				return fmt.Errorf("threshold %d over %d shareholders (or shareholder 0)", v.Threshold(), v.Shareholders().Size())
+			}
 			w, err := threshold.NewThresholdAccessStructure(v.Threshold(), v.Shareholders())
 			if err != nil {
 				return err
@@ -502,6 +778,9 @@ func init() {
 		gen:   c12GenUnanimity,
 		equal: func(a, b *unanimity.Unanimity) bool { return a.Equal(b) },
 		valid: func(v *unanimity.Unanimity) error {
+			if v.Shareholders() == nil || v.Shareholders().Contains(0) || v.Shareholders().Size() < 2 {
+				return errC12("fewer than 2 shareholders or shareholder 0")
+			}
 			w, err := unanimity.NewUnanimityAccessStructure(v.Shareholders())
 			if err != nil {
 				return err
@@ -514,9 +793,38 @@ func init() {
 	})
 	c12Register(c12Case[*cnf.CNF]{
 		name:  "cnf.CNF",
-		gen:   c12GenCNF,
+		gen: func() func(r *Rng) (*cnf.CNF, error) {
+			alt := &c12Alt{}
+			return func(r *Rng) (*cnf.CNF, error) {
+				if alt.next() {
+					return c12GenNonIdealCNF(r)
+				}
+				return c12GenCNF(r)
+			}
+		}(),
 		equal: c12EqBytes[*cnf.CNF],
 		valid: func(v *cnf.CNF) error {
+			// the rules themselves: non-empty antichain of non-empty sets without 0, at least two
+			// shareholders, shareholders = union of the sets
+			sets := slices.Collect(v.MaximalUnqualifiedSetsIter())
+			if len(sets) == 0 {
+				return errC12("no maximal unqualified set")
+			}
+			union := hashset.NewComparable[sharing.ID]()
+			for i, a := range sets {
+				if a == nil || a.IsEmpty() || a.Contains(0) {
+					return errC12("empty unqualified set or shareholder 0")
+				}
+				union.AddAll(a.List()...)
+				for j, b := range sets {
+					if i != j && a.IsSubSet(b) {
+						return errC12("unqualified sets are not an antichain")
+					}
+				}
+			}
+			if union.Size() < 2 || !union.Freeze().Equal(v.Shareholders()) {
+				return errC12("shareholders are not the union of the unqualified sets (or fewer than 2)")
+			}
 			w, err := cnf.NewCNFAccessStructure(slices.Collect(v.MaximalUnqualifiedSetsIter())...)
 			if err != nil {
 				return err
@@ -529,9 +837,30 @@ func init() {
 	})
 	c12Register(c12Case[*hierarchical.HierarchicalConjunctiveThreshold]{
 		name:  "hierarchical.HierarchicalConjunctiveThreshold",
-		gen:   c12GenHierarchical,
+		gen:   func(r *Rng) (*hierarchical.HierarchicalConjunctiveThreshold, error) { return c12GenHierarchicalOpt(r, true) },
 		equal: c12EqHierarchical,
 		valid: func(v *hierarchical.HierarchicalConjunctiveThreshold) error {
+			// the rules themselves: thresholds strictly increasing from above 0, parties without 0,
+			// levels disjoint, each threshold at most the number of parties so far
+			prev, seen := 0, map[sharing.ID]bool{}
+			if len(v.Levels()) == 0 {
+				return errC12("no level")
+			}
+			for _, l := range v.Levels() {
+				if l == nil || l.Threshold() <= prev {
+					return errC12("thresholds not strictly increasing")
+				}
+				prev = l.Threshold()
+				for p := range l.Shareholders().Iter() {
+					if p == 0 || seen[p] {
+						return errC12("party 0 or a party in two levels")
+					}
+					seen[p] = true
+				}
+				if len(seen) < l.Threshold() {
+					return errC12("threshold above the number of parties so far")
+				}
+			}
 			w, err := hierarchical.NewHierarchicalConjunctiveThresholdAccessStructure(v.Levels()...)
 			if err != nil {
 				return err
@@ -544,7 +873,15 @@ func init() {
 	})
 	c12Register(c12Case[*boolexpr.ThresholdGateAccessStructure]{
 		name:  "boolexpr.ThresholdGateAccessStructure",
-		gen:   c12GenBoolexpr,
+		gen: func() func(r *Rng) (*boolexpr.ThresholdGateAccessStructure, error) {
+			alt := &c12Alt{}
+			return func(r *Rng) (*boolexpr.ThresholdGateAccessStructure, error) {
+				if alt.next() {
+					return c12GenBoolRepeated(r)
+				}
+				return c12GenBoolexpr(r)
+			}
+		}(),
 		equal: c12EqBytes[*boolexpr.ThresholdGateAccessStructure],
 		valid: c12ValidBoolexpr,
 	})
